@@ -482,8 +482,10 @@ def rule_filters(repo: Repo, rep: Report) -> int:
     bad = None
     try:
         for p in grid:
-            got = _eval_fn(fi, p)
             want = p["channels"] * 4 ** p["num_strided_layers"] * p["bw_ratio"] * (2 if p["is_complex_transmission"] else 1)
+            if abs(want - round(want)) > 1e-9:
+                continue  # outside the function's domain (it asserts an integer filter count)
+            got = _eval_fn(fi, p)
             if abs(float(got) - float(want)) > 1e-9 * max(1.0, abs(want)):
                 bad = (p, got, want)
                 break
